@@ -122,40 +122,71 @@ theorem C14_defaults (s : Schema) (op : OperationDef) (vars m : VarMap)
 
 /-
   ────────────────────────────────────────────────────────────────────────────────────────────
-  FULL STATEMENTS of C14_conforms / C14_rejects (both FALSE of the pinned tree):
+  FULL STATEMENTS of C14_conforms / C14_rejects (both FALSE of the tree):
 
       theorem C14_conforms : coerce s op vars = .ok m → ∀ v ∈ op.vars, ∀ y, m.lookup v.var = some y → Conforms s v.type y
       theorem C14_rejects  : (∃ v ∈ op.vars, ∃ x, vars.lookup v.var = some x ∧ ¬ Coercible s v.type x) → ∀ m, coerce s op vars ≠ .ok m
 
-  The pinned code is more lenient than the strict reading at six points; each has a
-  kernel-checked counterexample below and is one field of `Leniency` (GqlModel/Vars/Spec.lean):
-    flatNested (R14d)       `$v: [[Int]]` = `[1,2]` returns `[1,2]`: the coerced inner lists are discarded
+  R14d (REPAIRED by r14d.patch, `legacyDiscardNestedListResult = false` in the model): the coerced
+  list item used to be discarded (`_, err := v.validateVarType(typ.Elem, field)`), so `$v: [[Int]]`
+  = `[1,2]` returned `[1,2]`; now the coerced item is stored back and the result is `[[1],[2]]`.
+  The former witness is kept as a theorem of conforming return (`C14_conforms_R14d_returns`, plus
+  `…_single_returns`, `…_field_returns`, `…_typed_returns`).
+
+  The code is still more lenient than the strict reading at FIVE points; each has a kernel-checked
+  counterexample below and is one field of `Leniency` (GqlModel/Vars/Spec.lean):
     enumFold (R14b)         `$v: Color` = "red" is accepted for `enum Color { RED }`
     typenameKey (R14c)      an input object keeps the undeclared key `__typename`
     fractionalInt           `$v: Int` = 1.5 (float64) is accepted
     numericStrings          `$v: Int` = "12" (a string) is accepted
     jsonNumberAsString      `$v: String` = json.Number("12") is accepted
-  `C14_conforms_partial` / `C14_rejects_partial` are the statements with `conformsWith .legacy`
-  (all six leniencies granted) in place of `Conforms` / `Coercible`; they are PROVED for variables
-  whose named type is a scalar or an enum under any list nesting (`LeafTyped`).  NOT FINISHED:
-  the same statement for input-object types (the `fieldLoop` invariant: keys preserved, every
-  visited entry replaced by a conforming value, required fields present; needs unique field names
-  and unique map keys).  For input objects the claim is covered by exploration only: the harness
-  judges every value Go returns with `conformsWith .legacy` (X-vars: no violation in 2·10^5
-  results) and attributes each strict violation to the leniencies above.
-  Repairs that make the strict statements true: store the coerced element back (R14d,
-  `legacyDiscardNestedListResult := false`), compare enum names exactly, reject `__typename` /
+  (the sixth field, `flatNested`, now only describes SUPPLIED values: the single-value-to-list
+  coercion of the GraphQL spec, part of `Coercible`).
+  `C14_conforms_partial` is the statement with `conformsWith .afterR14d` (the five leniencies, list
+  nesting EXACT) in place of `Conforms` — before the repair it could only be stated with
+  `.legacy`, i.e. granting `flatNested` to results; `C14_rejects_partial` is the statement with
+  `conformsWith .legacy` (five leniencies + single-value-to-list coercion) in place of `Coercible`.
+  Both are PROVED for variables whose named type is a scalar or an enum under any list nesting
+  (`LeafTyped`).  NOT FINISHED: the same statement for input-object types (the `fieldLoop`
+  invariant: keys preserved, every visited entry replaced by a conforming value, required fields
+  present; needs unique field names and unique map keys).  For input objects the claim is covered
+  by exploration only: the harness judges every value Go returns with `conformsWith .afterR14d`
+  and `.legacy` (C14 check: no violation in 4·10^5 results) and attributes each strict violation
+  to the leniencies above.
+  Repairs that make the strict statements true: compare enum names exactly, reject `__typename` /
   fractional floats for Int / strings for Int and Float / json.Number for String.
   ────────────────────────────────────────────────────────────────────────────────────────────
 -/
 
-/-- R14d: nested list results are discarded: `$v: [[Int]]` = `[1,2]` yields `[1,2]`, not `[[1],[2]]`. -/
-theorem C14_conforms_counterexample :
+/-- former R14d witness: `$v: [[Int]]` = `[1,2]` now yields `[[1],[2]]`, which conforms strictly. -/
+theorem C14_conforms_R14d_returns :
     coerce schema (opWith (listOf (listOf (named "Int")))) (varsV (islice [int 1, int 2]))
-        = .ok (varsV (islice [int 1, int 2]))
-    ∧ ¬ Conforms schema (listOf (listOf (named "Int"))) (islice [int 1, int 2])
+        = .ok (varsV (islice [.slice (.int .int) (.cons (int 1) .nil), .slice (.int .int) (.cons (int 2) .nil)]))
+    ∧ Conforms schema (listOf (listOf (named "Int")))
+        (islice [.slice (.int .int) (.cons (int 1) .nil), .slice (.int .int) (.cons (int 2) .nil)])
     ∧ Coercible schema (listOf (listOf (named "Int"))) (islice [int 1, int 2]) := by
   refine ⟨by rfl, by decide, by decide⟩
+
+/-- `$v: [[Int]]` = `1` yields `[[1]]` (as `[]interface{}{[]int{1}}`). -/
+theorem C14_conforms_R14d_single_returns :
+    coerce schema (opWith (listOf (listOf (named "Int")))) (varsV (int 1))
+        = .ok (varsV (islice [.slice (.int .int) (.cons (int 1) .nil)]))
+    ∧ Conforms schema (listOf (listOf (named "Int"))) (islice [.slice (.int .int) (.cons (int 1) .nil)]) := by
+  refine ⟨by rfl, by decide⟩
+
+/-- a typed list `[]int{1,2}` for `[[Int]]` cannot hold the coerced items: the result is rebuilt as
+    `[]interface{}{[]int{1}, []int{2}}`. -/
+theorem C14_conforms_R14d_typed_returns :
+    coerce schema (opWith (listOf (listOf (named "Int")))) (varsV (.slice (.int .int) (.cons (int 1) (.cons (int 2) .nil))))
+        = .ok (varsV (islice [.slice (.int .int) (.cons (int 1) .nil), .slice (.int .int) (.cons (int 2) .nil)])) := by
+  rfl
+
+/-- the same inside an input object: `$v: In` = `{"l": [1, [2]]}` yields `{"l": [[1], [2]]}`. -/
+theorem C14_conforms_R14d_field_returns :
+    coerce schema (opWith (named "In")) (varsV (imap [(str "l", islice [int 1, islice [int 2]])]))
+        = .ok (varsV (imap [(str "l", islice [.slice (.int .int) (.cons (int 1) .nil), islice [int 2]])]))
+    ∧ Conforms schema (named "In") (imap [(str "l", islice [.slice (.int .int) (.cons (int 1) .nil), islice [int 2]])]) := by
+  refine ⟨by rfl, by decide⟩
 
 /-- R14b: enum values are matched case-insensitively. -/
 theorem C14_conforms_counterexample_enumFold :
@@ -190,7 +221,9 @@ theorem C14_conforms_counterexample_jsonNumber :
   refine ⟨by rfl, by decide⟩
 
 /-- When coercion returns values, the value of every declared variable of a scalar- or enum-based
-    type (any list nesting) conforms to its declared type up to the six enumerated leniencies.
+    type (any list nesting) conforms to its declared type up to the FIVE enumerated leniencies; in
+    particular every list position holds a list of exactly the declared depth (false before the
+    repair of R14d, where only `conformsWith .legacy` — `flatNested` granted — could be proved).
     `hwf` (new with the repair of R14a) is the representation invariant of `GoVal`, true of every
     Go value: `.nil` only inside `interface{}` containers.  Before the repair an ill-formed typed
     slice "holding" `.nil` at a list element type made the model panic; now the model returns it,
@@ -199,7 +232,7 @@ theorem C14_conforms_partial (s : Schema) (op : OperationDef) (vars m : VarMap)
     (hplain : EnumNamesPlain s) (hnodup : (op.vars.map (·.var)).Nodup)
     (hwf : wfFieldsB true vars = true)
     (h : coerce s op vars = .ok m) :
-    ∀ v ∈ op.vars, LeafTyped s v.type → ∀ y, m.lookup v.var = some y → conformsWith .legacy s v.type y = true := by
+    ∀ v ∈ op.vars, LeafTyped s v.type → ∀ y, m.lookup v.var = some y → conformsWith .afterR14d s v.type y = true := by
   intro v hv ht y hy
   obtain ⟨acc, c, h1, h2, h3⟩ := coerceLoop_entry op.vars .nil m hnodup h v hv
   rcases coerceVar_shape h1 with ⟨e, _⟩ | ⟨x, y', e1, e2, _⟩
@@ -209,7 +242,7 @@ theorem C14_conforms_partial (s : Schema) (op : OperationDef) (vars m : VarMap)
     simp at hy; subst hy; exact hc
 
 /-- Coercion returns an error rather than values whenever a supplied value of a scalar- or
-    enum-based type cannot conform even with the six leniencies (and single-value-to-list coercion).
+    enum-based type cannot conform even with the five leniencies and single-value-to-list coercion.
     `hwf`: see C14_conforms_partial. -/
 theorem C14_rejects_partial (s : Schema) (op : OperationDef) (vars : VarMap)
     (hplain : EnumNamesPlain s) (hnodup : (op.vars.map (·.var)).Nodup)
@@ -237,6 +270,7 @@ example : EnumNamesPlain schema := by
 example : LeafTyped schema (listOf (listOf (named "Color"))) := ⟨colorDef, by rfl, Or.inr rfl⟩
 example : coerce schema (opWith (listOf (named "Color"))) (varsV (.str (str "RED")))
     = .ok (varsV (.slice .string (.cons (.str (str "RED")) .nil))) := by rfl
+example : conformsWith .afterR14d schema (listOf (listOf (named "Int"))) (islice [int 1, int 2]) = false := by decide
 example : conformsWith .legacy schema (named "Color") (.str (str "GREEN")) = false := by decide
 
 /- non-vacuity of C14_total_partial / C14_defaults: an operation with a default, coerced with the
